@@ -1307,7 +1307,8 @@ class MyPyAstVisitor:
             if _check_publicity_with_reexports is not None:
                 return _check_publicity_with_reexports
 
-        if is_internal(name) and not name.endswith("__"):
+        # Only a name with two underscores at both ends ("__len__") is a special name; "__mangled" and "_trailing__" are private
+        if is_internal(name) and not (name.startswith("__") and name.endswith("__") and len(name) > 4):
             return False
 
         if isinstance(parent, Function):
@@ -1356,7 +1357,7 @@ class MyPyAstVisitor:
     def _check_publicity_in_reexports(self, name: str, qname: str, parent: Module | Class) -> bool | None:
         not_internal = not is_internal(name)
         # Dunder names count as public (like in _is_public), except for wildcard imports, which skip them
-        public_name = not_internal or name.endswith("__")
+        public_name = not_internal or (name.startswith("__") and name.endswith("__") and len(name) > 4)
         module_qname = getattr(self.mypy_file, "fullname", "")
         module_name = getattr(self.mypy_file, "name", "")
         package_id = "/".join(module_qname.split(".")[:-1])
@@ -1419,7 +1420,8 @@ class MyPyAstVisitor:
                         # For wildcard imports we check in the _is_public method if the func / class is internal
                         for qualified_import in reexport_source.qualified_imports:
 
-                            if qname.endswith(qualified_import.qualified_name) and (
+                            # ("json.dumps" is not "pkg._myjson.dumps")
+                            if f".{qname}".endswith(f".{qualified_import.qualified_name}") and (
                                 qualified_import.alias is not None
                                 and not is_internal(qualified_import.alias)
                                 or (qualified_import.alias is None and public_name)
